@@ -19,6 +19,11 @@ variable: scalar "_" / list of placeholders with shared boundaries / with per-co
     __init__                    keeps deepcopy(processor); stores _set_bound()'s pair in the order get_bounds
                                 returns it                                         -> d_init_copy
     fitness                     update_processor gets convert_to_parameters(x)     -> d_fit_converts
+    _apply_parameters, apply_parameters_to_processors   the island's row -> update_processor -> run_pipeline
+  pyxel/calibration/archipelago_datatree.py  (class ArchipelagoDataTree)
+    _get_champions              champion_parameters = convert_to_parameters(champion_decision = get_champions_x())
+    get_best_individuals        best_parameters = convert_to_parameters(best_decision = population.get_x())
+    run_evolve                  the final runs get champion_parameters of the last evolution   -> src_report
 
 Only the listed statement shapes are accepted; anything else raises TranslationError (fail closed).  Whole
 bodies are not fingerprinted: statements that do not touch the tracked names (logging, annotations, asserts,
@@ -829,6 +834,172 @@ def parameter_values(tree):
     return rows, getter
 
 
+# ------------------------------------------------------------------------------------------ reporting
+
+AR = "pyxel/calibration/archipelago_datatree.py"
+ARCLS = "ArchipelagoDataTree"
+
+
+def is_item(n, base, keyname):
+    """<base>["<keyname>"]"""
+    return (isinstance(n, ast.Subscript) and is_name(n.value, base) and isinstance(n.slice, ast.Constant)
+            and n.slice.value == keyname)
+
+
+def dataarray_arg(v):
+    """xr.DataArray(<e>, ...) -> <e>"""
+    if isinstance(v, ast.Call) and u(v.func) in ("xr.DataArray", "xarray.DataArray", "DataArray") and v.args:
+        return v.args[0]
+    return None
+
+
+def convert_arg(e):
+    """self.problem.convert_to_parameters(<e>) -> <e>"""
+    if isinstance(e, ast.Call) and u(e.func) == "self.problem.convert_to_parameters" and len(e.args) == 1 \
+            and not e.keywords:
+        return e.args[0]
+    return None
+
+
+def reporting(ar_tree, fd_tree):
+    """-> (champion parameters are the conversion of the champion decisions,
+           best parameters are the conversion of the best decisions,
+           the final pipeline runs get the reported parameters)"""
+    # ---- _get_champions
+    fn = find_func(ar_tree, "_get_champions", ARCLS)
+    ds, names, stored = None, {}, {}
+    for s in body_no_doc(fn):
+        ap = assign_parts(s)
+        if not ap:
+            continue
+        t, v = ap
+        if is_name(t) and isinstance(v, ast.Call) and u(v.func) in ("self._pygmo_archi.get_champions_x",
+                                                                    "self._pygmo_archi.get_champions_f"):
+            names[t.id] = u(v.func).rsplit(".", 1)[1]
+        elif isinstance(t, ast.Subscript) and is_name(t.value) and isinstance(t.slice, ast.Constant):
+            ds = ds or t.value.id
+            if t.value.id != ds:
+                fail(s, "_get_champions fills two datasets")
+            if t.slice.value in stored:
+                fail(s, "_get_champions stores a variable twice")
+            stored[t.slice.value] = v
+    ret = body_no_doc(fn)[-1]
+    if not (isinstance(ret, ast.Return) and is_name(ret.value, ds)):
+        fail(fn, "_get_champions must return the dataset it filled")
+    dec = dataarray_arg(stored.get("champion_decision"))
+    if not (is_name(dec) and names.get(dec.id) == "get_champions_x"):
+        fail(fn, "champion_decision is not the archipelago's get_champions_x()")
+    par = dataarray_arg(stored.get("champion_parameters"))
+    if par is None:
+        fail(fn, "champion_parameters is not stored as a DataArray")
+    src = convert_arg(par)
+    e = src if src is not None else par
+    if not (is_item(e, ds, "champion_decision") or is_name(e, dec.id)):
+        fail(fn, "champion_parameters is not computed from champion_decision")
+    champion = src is not None
+    # ---- get_best_individuals
+    fn = find_func(ar_tree, "get_best_individuals", ARCLS)
+    loops = [s for s in body_no_doc(fn) if isinstance(s, ast.For)]
+    if len(loops) != 1:
+        fail(fn, "get_best_individuals: expected one loop over the islands")
+    xs, conv, ds, stored = None, {}, None, {}
+    for s in loops[0].body:
+        ap = assign_parts(s)
+        if not ap:
+            continue
+        t, v = ap
+        if is_name(t) and isinstance(v, ast.Call) and isinstance(v.func, ast.Attribute) and v.func.attr == "get_x" \
+                and not v.args:
+            xs = t.id
+        elif is_name(t) and convert_arg(v) is not None:
+            conv[t.id] = convert_arg(v)
+        elif isinstance(t, ast.Subscript) and is_name(t.value) and isinstance(t.slice, ast.Constant) \
+                and str(t.slice.value).startswith("best_"):
+            ds = ds or t.value.id
+            if t.value.id != ds or t.slice.value in stored:
+                fail(s, "get_best_individuals stores a variable twice / in two datasets")
+            stored[t.slice.value] = v
+    dec = dataarray_arg(stored.get("best_decision"))
+    if xs is None or not is_name(dec, xs):
+        fail(fn, "best_decision is not the population's get_x()")
+    par = dataarray_arg(stored.get("best_parameters"))
+    if par is None:
+        fail(fn, "best_parameters is not stored as a DataArray")
+    if is_name(par) and par.id in conv and is_name(conv[par.id], xs):
+        best = True
+    elif convert_arg(par) is not None and is_name(convert_arg(par), xs):
+        best = True
+    elif is_name(par, xs):
+        best = False
+    else:
+        fail(fn, "best_parameters is not computed from the decision vectors of the population")
+    # ---- run_evolve: the final application
+    fn = find_func(ar_tree, "run_evolve", ARCLS)
+    calls = [c for c in ast.walk(fn) if isinstance(c, ast.Call)
+             and u(c.func) == "self.problem.apply_parameters_to_processors"]
+    if len(calls) != 1 or calls[0].args or [k.arg for k in calls[0].keywords] != ["parameters"]:
+        fail(fn, "run_evolve: expected one apply_parameters_to_processors(parameters=...)")
+    a = calls[0].keywords[0].value
+    if not (isinstance(a, ast.Subscript) and is_name(a.value) and isinstance(a.slice, ast.Constant)
+            and a.slice.value in ("champion_parameters", "champion_decision")):
+        fail(a, "run_evolve: the parameters applied at the end are not the champions'")
+    last = a.value.id
+    ok_last = False
+    for s in ast.walk(fn):
+        ap = assign_parts(s) if isinstance(s, (ast.Assign, ast.AnnAssign)) else None
+        if ap and is_name(ap[0], last):
+            v = ap[1]
+            if isinstance(v, ast.Call) and isinstance(v.func, ast.Attribute) and v.func.attr == "isel" and not v.args \
+                    and [k.arg for k in v.keywords] == ["evolution"] and u(v.keywords[0].value) == "-1":
+                ok_last = True
+            else:
+                fail(s, "run_evolve: the champions applied at the end are not those of the last evolution")
+    if not ok_last:
+        fail(fn, "run_evolve: the champions applied at the end are not those of the last evolution")
+    final = a.slice.value == "champion_parameters"
+    # ---- fitting_datatree: apply_parameters_to_processors -> _apply_parameters -> update_processor -> run_pipeline
+    ap_fn = find_func(fd_tree, "_apply_parameters", CLS)
+    upd = [c for c in ast.walk(ap_fn) if isinstance(c, ast.Call) and u(c.func) == "self.update_processor"]
+    if len(upd) != 1:
+        fail(ap_fn, "_apply_parameters: expected one call of update_processor")
+    kws = {k.arg: k.value for k in upd[0].keywords}
+    if upd[0].args or set(kws) != {"parameter", "processor"} or not is_name(kws["parameter"], "parameter") \
+            or not is_name(kws["processor"], "processor"):
+        fail(upd[0], "_apply_parameters must call update_processor(parameter=parameter, processor=processor)")
+    newp = [assign_parts(s)[0].id for s in body_no_doc(ap_fn)
+            if assign_parts(s) and is_name(assign_parts(s)[0]) and assign_parts(s)[1] is upd[0]]
+    runs = [c for c in ast.walk(ap_fn) if isinstance(c, ast.Call) and u(c.func) == "run_pipeline"]
+    if len(newp) != 1 or len(runs) != 1 or not any(k.arg == "processor" and is_name(k.value, newp[0])
+                                                     for k in runs[0].keywords):
+        fail(ap_fn, "_apply_parameters: run_pipeline does not get the processor returned by update_processor")
+    ap_all = find_func(fd_tree, "apply_parameters_to_processors", CLS)
+    inner = [c for c in ast.walk(ap_all) if isinstance(c, ast.Call) and isinstance(c.func, ast.Call)
+             and u(c.func.func) == "delayed" and len(c.func.args) == 1 and u(c.func.args[0]) == "self._apply_parameters"]
+    if len(inner) != 1:
+        fail(ap_all, "apply_parameters_to_processors: expected one delayed(self._apply_parameters)(...)")
+    kws = {k.arg: k.value for k in inner[0].keywords}
+    if "parameter" not in kws or not is_name(kws["parameter"]):
+        fail(inner[0], "apply_parameters_to_processors: parameter= is not a name")
+    pname, ok_param, grp = kws["parameter"].id, False, None
+    for s in ast.walk(ap_all):
+        if isinstance(s, ast.For) and isinstance(s.iter, ast.Call) and isinstance(s.iter.func, ast.Attribute) \
+                and s.iter.func.attr == "groupby" and is_name(s.iter.func.value, "parameters") \
+                and len(s.iter.args) == 1 and isinstance(s.iter.args[0], ast.Constant) and s.iter.args[0].value == "island" \
+                and isinstance(s.target, ast.Tuple) and len(s.target.elts) == 2 and is_name(s.target.elts[1]):
+            grp = s.target.elts[1].id
+    for s in ast.walk(ap_all):
+        ap = assign_parts(s) if isinstance(s, (ast.Assign, ast.AnnAssign)) else None
+        if ap and is_name(ap[0], pname):
+            # <group>.squeeze().to_numpy() | <group>.to_numpy().squeeze() | np.asarray(<group>).squeeze() ...
+            names_in = {n.id for n in ast.walk(ap[1]) if isinstance(n, ast.Name)}
+            calls_in = {c.func.attr for c in ast.walk(ap[1]) if isinstance(c, ast.Call) and isinstance(c.func, ast.Attribute)}
+            ok_param = grp is not None and names_in <= {grp, "np"} and grp in names_in \
+                and calls_in <= {"squeeze", "to_numpy", "asarray", "array", "ravel"}
+    if not ok_param:
+        fail(ap_all, "apply_parameters_to_processors: the island's row of `parameters` is not what is applied")
+    return champion, best, final
+
+
 # ------------------------------------------------------------------------------------------ emission
 
 PRELUDE = ("From Coq Require Import List Bool Arith String.\n"
@@ -840,7 +1011,7 @@ def cb(b: bool) -> str:
     return "true" if b else "false"
 
 
-def emit(rows, getter, sb, cv, up, init_copy, fit_conv) -> str:
+def emit(rows, getter, sb, cv, up, init_copy, fit_conv, rep) -> str:
     cvc, cva0, cvb = cv
     upc, upa0, upb = up
     return (HEADER + PRELUDE +
@@ -849,7 +1020,8 @@ def emit(rows, getter, sb, cv, up, init_copy, fit_conv) -> str:
             f"    (mkSb {sb[SCALAR]}\n          {sb[SHARED]}\n          {sb[PERCOMP]}\n          {getter})\n"
             f"    (mkCv {cb(cvc)} {cva0} {cvb[SCALAR]} {cvb[SHARED]})\n"
             f"    (mkUp {cb(upc)} {upa0} {upb[SCALAR]} {upb[SHARED]})\n"
-            f"    {cb(init_copy)} {cb(fit_conv)}.\n")
+            f"    {cb(init_copy)} {cb(fit_conv)}.\n"
+            f"Definition src_report : rp_desc := mkRp {cb(rep[0])} {cb(rep[1])} {cb(rep[2])}.\n")
 
 
 def translate(repo: Path) -> str:
@@ -860,9 +1032,11 @@ def translate(repo: Path) -> str:
     cv = convert(fd)
     up = update(fd)
     init_copy, fit_conv = init_and_fitness(fd)
-    return emit(rows, getter, sb, cv, up, init_copy, fit_conv)
+    rep = reporting(parse(repo, AR), fd)
+    return emit(rows, getter, sb, cv, up, init_copy, fit_conv, rep)
 
 
 # the description of the unchanged tree; used only to keep a model available for the failing-input search
 # when the translation itself fails (the failed translation is already a broken obligation)
-FALLBACK = HEADER + PRELUDE + "Definition src_desc : wdesc := desc_as_coded.\n"
+FALLBACK = (HEADER + PRELUDE + "Definition src_desc : wdesc := desc_as_coded.\n"
+            "Definition src_report : rp_desc := mkRp true true true.\n")
